@@ -362,7 +362,7 @@ class World:
     def observe(self, req: dict[str, Any]) -> dict[str, Any]:
         del CALLS[:]
         client = self.clients[req["app"]]
-        r = client.simulate_post(req["path"], body=req["body"], headers=req["headers"])
+        r = client.simulate_post(req["path"], body=req["body"], headers=req["headers"], wsgierrors=io.StringIO())
         return classify(r, list(CALLS))
 
 
